@@ -112,7 +112,7 @@ def _finitize(arrays, formulas, depth=0):
     return out
 
 
-def finite_model_search(pc, goal, extra=(), rounds=25, budget_s=20):
+def finite_model_search(pc, goal, extra=(), rounds=12, budget_s=4, why=None):
     """Model-based instantiation by hand, for goals that z3 leaves `unknown` under a quantified path
     condition (DESIGN 2.10).  Solve the quantifier-free part of (pc and not goal) together with the
     instances collected so far; evaluate every universally quantified conjunct in the model found and ask
@@ -136,6 +136,8 @@ def finite_model_search(pc, goal, extra=(), rounds=25, budget_s=20):
     for rnd in range(rounds):
         left = budget_s - (time.time() - t0)
         if left <= 0:
+            if why is not None:
+                why.append('budget after %d rounds, %d instances' % (rnd, len(insts)))
             return None
         s = z3.Solver()
         s.set('timeout', int(max(200, min(left, 5) * 1000)))
@@ -145,6 +147,8 @@ def finite_model_search(pc, goal, extra=(), rounds=25, budget_s=20):
         if r == z3.unsat:
             return 'proved', None, 'z3 (manual instantiation, %d instances)' % len(insts)
         if r != z3.sat:
+            if why is not None:
+                why.append('ground query %s in round %d' % (r, rnd))
             return None
         # look for a FINITE countermodel first: every array is a default value overwritten at the index terms
         # that occur in the ground formulas (a restriction of the search space only -- the model found is
@@ -180,6 +184,8 @@ def finite_model_search(pc, goal, extra=(), rounds=25, budget_s=20):
             s3.set('timeout', 3000)
             s3.add(z3.Not(v))
             if s3.check() != z3.unsat:
+                if why is not None:
+                    why.append('no witness and not provably true: %s' % str(q)[:200])
                 return None
         if bad:
             continue
@@ -188,8 +194,12 @@ def finite_model_search(pc, goal, extra=(), rounds=25, budget_s=20):
             s2.set('timeout', 3000)
             s2.add(z3.Not(m.eval(c, model_completion=True)))
             if s2.check() != z3.unsat:
+                if why is not None:
+                    why.append('conjunct of another shape not valid in the model: %s' % str(c)[:200])
                 return None
         return 'refuted', m, 'z3 (finite countermodel validated against every quantified assumption, %d instances)' % len(insts)
+    if why is not None:
+        why.append('no convergence in %d rounds, %d instances' % (rounds, len(insts)))
     return None
 
 
@@ -227,6 +237,8 @@ def prove(pc, goal, timeout_ms=None, extra=()):
         if fm[0] == 'refuted':
             _cegar_hits[0] += 1
         return fm[0], fm[1], int((time.time() - t0) * 1000), fm[2]
+    if timeout_ms is not None and timeout_ms <= 2000:
+        return 'unknown', None, int((time.time() - t0) * 1000), 'z3'        # degraded run: no second opinion
     # second opinion from cvc5 on z3's unknown
     v = cvc5_decide(s)
     ms = int((time.time() - t0) * 1000)
@@ -319,7 +331,9 @@ _unknowns = [0]
 
 
 def discharge(name, kind, pc, goal, function=None, path=None, extra=(), replay=None, timeout_ms=None):
-    degraded = _unknowns[0] >= UNKNOWN_BUDGET
+    # several undecided obligations, or genuine countermodels already found: the tree breaks a contract;
+    # the remaining obligations only add detail, so they get a small budget
+    degraded = _unknowns[0] >= UNKNOWN_BUDGET or _cegar_hits[0] >= 2
     if degraded and timeout_ms is None:
         # this worker already met several undecided obligations (the tree probably breaks a contract):
         # keep going with a small budget so that the run ends and the stand-in can decide
